@@ -31,7 +31,7 @@ DIAG = {"cache_hits", "cache_misses", "cache_used", "cache_enabled", "cache_hit"
 KINDS = ["repeat", "other-agent", "edge-replace-same-count", "node-label-change", "episode-add", "apply", "kill-switch-turn", "cfg:k_retrieval", "cfg:ranking",
          "cfg:sim_threshold", "cfg:owner_scope", "cfg:now", "cfg:now-same-day", "cfg:residual_cap", "cfg:tiers", "cfg:exact_recent_days", "cfg:hybrid", "gel-edge-change",
          "cfg:t1.queue_budget", "cfg:t1.decay", "slice-cap", "switch-state", "node-add", "edge-add",
-         "switch-state-reordered", "text-variant", "episode-readd-same-id", "slice-cap-t1", "index-clear-refill", "cfg:perf-master-with-t1-caps"]
+         "switch-state-reordered", "text-variant", "episode-readd-same-id", "slice-cap-t1", "index-clear-refill", "cfg:perf-master-with-t1-caps", "graph-apply-deltas"]
 
 
 def gen_history(rng, kind=None):
@@ -143,6 +143,23 @@ def apply_mutation(m, envs, world2, cfgs, slice_holder):
         elif kind == "edge-add" and len(g.nodes) >= 2:
             ids = sorted(g.nodes)
             store.upsert_edges(gid, [Edge(id=f"newe{m['i']}", src=ids[0], dst=ids[-1], weight=1.0, rel="supports")])
+        elif kind == "graph-apply-deltas" and g.edges:
+            # the graph store's own delta API (dict deltas): an existing edge re-typed / re-weighted / re-routed, one field at a
+            # time, or a node added
+            eid = sorted(g.edges)[m["i"] % len(g.edges)]
+            e = g.edges[eid]
+            ids_ = sorted(g.nodes)
+            how = int(r * 4) % 4
+            dd = {"op": "upsert_edge", "id": eid, "src": e.src, "dst": e.dst, "weight": e.weight, "rel": e.rel}
+            if how == 0:
+                dd["rel"] = {"supports": "contradicts", "contradicts": "associates"}.get(e.rel, "supports")
+            elif how == 1:
+                dd["weight"] = 0.0 if e.weight else 0.9
+            elif how == 2 and ids_:
+                dd["dst"] = ids_[m["i"] % len(ids_)]
+            else:
+                dd = {"op": "upsert_node", "id": f"nn{m['i']}", "label": "hello"}
+            store.apply_deltas(gid, [dd])  # the world-store double forwards dict deltas to the real graph store
         elif kind == "episode-add":
             from vlib.harness import build_index
             idx = st["mem_index"]
